@@ -97,6 +97,9 @@ class R1Obs(Observer):
 
 
 MUTANTS = [
+    ("polygon queried at maxdepth, stored at depth", "AegeanTools/regions.py",
+     "        pix = hp.query_polygon(2**depth,", "        pix = hp.query_polygon(2**self.maxdepth,",
+     "C08-R14"),
     ("membership test skips level 1", "AegeanTools/regions.py",
      "        pixelset = self.get_demoted()\n"
      "        result = np.isin(pix, list(pixelset))\n",
@@ -253,6 +256,10 @@ def run(ctx):
     # membership answers come from the flattened set (shared with C09-R6)
     from .c09 import membership_for
     membership_for(ctx, ctx.prog, ci, "C08-R13")
+    # pixel identifiers are valid for the level they are stored under: the
+    # shape builders query at 2**depth (shared with C09-R1)
+    from .c09 import query_rule
+    query_rule(ctx, ctx.prog, ci, "C08-R14")
     r11_add(ctx, ci)
     from .. import precision
     precision.rule(
